@@ -108,11 +108,13 @@ func extract(repo string) error {
 	if err != nil {
 		return err
 	}
-	var passes [][2]string
-	var ampFrom, ampTo, outq string
-	var quotePairs [][2]string
-	unescapeAtEnd := false
+	var quoteRepl [][2]string // the ReplaceAll pairs of quoteLiteral, in source order
+	var quoteDelims []string  // the delimiters it writes around them
+	oddCallOK := false
+	plainWrite := false
+	plainReturn := false
 	oldDefaultFalse := false
+	replInDump := 0
 	for _, d := range f.Decls {
 		if gd, ok := d.(*ast.GenDecl); ok && gd.Tok == token.VAR {
 			for _, s := range gd.Specs {
@@ -132,51 +134,55 @@ func extract(repo string) error {
 		case "DumpIDL":
 			ast.Inspect(fd.Body, func(n ast.Node) bool {
 				if e, ok := n.(ast.Expr); ok {
-					if c, ok := replCall(e); ok {
-						a, ok1 := strLit(c.Args[1])
-						b, ok2 := strLit(c.Args[2])
-						if _, isQuote := isCall(c.Args[0], "", "joinQuotes"); isQuote {
-							// quoting of an include path: must be the quoting of literal values
-							quotePairs = append(quotePairs, [2]string{a, b})
-						} else if ok1 && ok2 {
-							passes = append(passes, [2]string{a, b})
-						}
+					if _, ok := replCall(e); ok {
+						replInDump++
 					}
-				}
-				if r, ok := n.(*ast.ReturnStmt); ok && len(r.Results) == 2 {
-					if _, ok := isCall(r.Results[0], "html", "UnescapeString"); ok {
-						unescapeAtEnd = true
+					if _, ok := isCall(e, "html", "UnescapeString"); ok {
+						replInDump++
 					}
 				}
 				return true
 			})
+			if last, ok := fd.Body.List[len(fd.Body.List)-1].(*ast.ReturnStmt); ok && len(last.Results) == 2 {
+				if c, ok := last.Results[0].(*ast.CallExpr); ok && len(c.Args) == 0 {
+					if sel, ok := c.Fun.(*ast.SelectorExpr); ok && sel.Sel.Name == "String" {
+						plainReturn = true
+					}
+				}
+			}
 		case "writeString":
+			if len(fd.Body.List) == 1 {
+				if es, ok := fd.Body.List[0].(*ast.ExprStmt); ok {
+					if c, ok := es.X.(*ast.CallExpr); ok {
+						if sel, ok := c.Fun.(*ast.SelectorExpr); ok && sel.Sel.Name == "WriteString" {
+							plainWrite = true
+						}
+					}
+				}
+			}
+		case "quoteLiteral":
 			ast.Inspect(fd.Body, func(n ast.Node) bool {
 				if e, ok := n.(ast.Expr); ok {
 					if c, ok := replCall(e); ok {
-						ampFrom, _ = strLit(c.Args[1])
-						ampTo, _ = strLit(c.Args[2])
+						a, _ := strLit(c.Args[1])
+						b, _ := strLit(c.Args[2])
+						quoteRepl = append(quoteRepl, [2]string{a, b})
+					}
+					if c, ok := isCall(e, "", "oddBackslashesBefore"); ok && len(c.Args) == 2 {
+						if b, ok := c.Args[1].(*ast.BasicLit); ok && b.Kind == token.CHAR && b.Value == `'"'` {
+							oddCallOK = true
+						}
 					}
 				}
-				return true
-			})
-		case "joinQuotes":
-			ast.Inspect(fd.Body, func(n ast.Node) bool {
-				if b, ok := n.(*ast.BinaryExpr); ok {
-					if s, ok := strLit(b.Y); ok {
-						outq = s
-					}
-				}
-				return true
-			})
-		case "printAnnotation", "printConstTypedValue", "typeName":
-			ast.Inspect(fd.Body, func(n ast.Node) bool {
-				if e, ok := n.(ast.Expr); ok {
-					if c, ok := replCall(e); ok {
-						if _, ok := isCall(c.Args[0], "", "joinQuotes"); ok {
-							a, _ := strLit(c.Args[1])
-							b, _ := strLit(c.Args[2])
-							quotePairs = append(quotePairs, [2]string{a, b})
+				if r, ok := n.(*ast.ReturnStmt); ok && len(r.Results) == 1 {
+					// delim + ReplaceAll(...) + delim
+					if outer, ok := r.Results[0].(*ast.BinaryExpr); ok {
+						if inner, ok := outer.X.(*ast.BinaryExpr); ok {
+							l, ok1 := strLit(inner.X)
+							rr, ok2 := strLit(outer.Y)
+							if ok1 && ok2 && l == rr {
+								quoteDelims = append(quoteDelims, l)
+							}
 						}
 					}
 				}
@@ -184,25 +190,19 @@ func extract(repo string) error {
 			})
 		}
 	}
-	if len(passes) != 3 {
-		return fmt.Errorf("DumpIDL: expected 3 strings.Replace passes with constant arguments, found %d", len(passes))
-	}
-	if !unescapeAtEnd {
-		return fmt.Errorf("DumpIDL no longer returns html.UnescapeString(...)")
-	}
-	if !oldDefaultFalse {
+	switch {
+	case !plainWrite:
+		return fmt.Errorf("writeString is no longer a plain buffer.WriteString(str)")
+	case !plainReturn || replInDump != 0:
+		return fmt.Errorf("DumpIDL post-processes the buffer again (Replace/UnescapeString found, or the result is not sb.String())")
+	case !oldDefaultFalse:
 		return fmt.Errorf("UseOldDumpFunction has an initialiser: the default writer may no longer be DumpIDL")
-	}
-	if ampFrom == "" || outq == "" {
-		return fmt.Errorf("writeString / joinQuotes constants not found")
-	}
-	if len(quotePairs) < 2 {
-		return fmt.Errorf("printAnnotation and printConstTypedValue no longer quote values through joinQuotes, found %v", quotePairs)
-	}
-	for _, q := range quotePairs {
-		if q != quotePairs[0] {
-			return fmt.Errorf("values, include paths and cpp_type must all be quoted the same way, found %v", quotePairs)
-		}
+	case !oddCallOK:
+		return fmt.Errorf("quoteLiteral no longer decides by oddBackslashesBefore(v, '\"')")
+	case len(quoteRepl) != 2 || len(quoteDelims) != 2:
+		return fmt.Errorf("quoteLiteral: expected two `delim + ReplaceAll(v, delim, esc) + delim` returns, found %v / %v", quoteRepl, quoteDelims)
+	case quoteDelims[0] != quoteRepl[0][0] || quoteDelims[1] != quoteRepl[1][0]:
+		return fmt.Errorf("quoteLiteral: delimiter and escaped byte differ: %v / %v", quoteRepl, quoteDelims)
 	}
 	rules, err := pegRules(repo)
 	if err != nil {
@@ -214,17 +214,14 @@ func extract(repo string) error {
 		}
 	}
 	var sb strings.Builder
-	sb.WriteString("/- GENERATED by harness/cmd/c17 extract from /repo (tool/trimmer/dump/dump.go string constants in source order; parser/thrift.peg rules checked). Do not edit. -/\n")
+	sb.WriteString("/- GENERATED by harness/cmd/c17 extract from /repo (tool/trimmer/dump/dump.go: constants of quoteLiteral; parser/thrift.peg rules checked). Do not edit. -/\n")
 	sb.WriteString("import ThriftVerif.Lib.Dump\nnamespace Generated.C17\n\n")
 	sb.WriteString("def cfg : Dump.Cfg :=\n")
-	fmt.Fprintf(&sb, "  { outq := %s -- %q\n", vl.LeanBytes(outq), outq)
-	fmt.Fprintf(&sb, "    quote := %s -- %q\n", vl.LeanBytes(quotePairs[0][0]), quotePairs[0][0])
-	fmt.Fprintf(&sb, "    q34 := %s -- %q\n", vl.LeanBytes(quotePairs[0][1]), quotePairs[0][1])
-	fmt.Fprintf(&sb, "    ampFrom := %s -- %q\n", vl.LeanBytes(ampFrom), ampFrom)
-	fmt.Fprintf(&sb, "    ampTo := %s -- %q\n", vl.LeanBytes(ampTo), ampTo)
-	for i, p := range passes {
-		fmt.Fprintf(&sb, "    pass%d := (%s, %s) -- %q -> %q\n", i+1, vl.LeanBytes(p[0]), vl.LeanBytes(p[1]), p[0], p[1])
-	}
+	// source order: the single-quoted branch first, then the double-quoted one
+	fmt.Fprintf(&sb, "  { dq := %s -- %q\n", vl.LeanBytes(quoteRepl[1][0]), quoteRepl[1][0])
+	fmt.Fprintf(&sb, "    dqEsc := %s -- %q\n", vl.LeanBytes(quoteRepl[1][1]), quoteRepl[1][1])
+	fmt.Fprintf(&sb, "    sq := %s -- %q\n", vl.LeanBytes(quoteRepl[0][0]), quoteRepl[0][0])
+	fmt.Fprintf(&sb, "    sqEsc := %s -- %q\n", vl.LeanBytes(quoteRepl[0][1]), quoteRepl[0][1])
 	sb.WriteString("  }\n\nend Generated.C17\n")
 	fmt.Print(sb.String())
 	return nil
